@@ -150,14 +150,23 @@ impl Payload for Q {
 
 // ---- wakers with identity -------------------------------------------------
 
-static VT: RawWakerVTable = RawWakerVTable::new(
-    |d| RawWaker::new(d, &VT),
-    |d| log(Ev::Wake(d as usize as u32)),
-    |d| log(Ev::Wake(d as usize as u32)),
+// Waker id `w` = (data pointer << 1) | vtable index: ids 2k and 2k+1 share their data pointer and differ only in the
+// vtable, so `Waker::will_wake` tells them apart while a comparison of the data pointers alone would not.
+static VT0: RawWakerVTable = RawWakerVTable::new(
+    |d| RawWaker::new(d, &VT0),
+    |d| log(Ev::Wake((d as usize as u32) << 1)),
+    |d| log(Ev::Wake((d as usize as u32) << 1)),
+    |_| {},
+);
+static VT1: RawWakerVTable = RawWakerVTable::new(
+    |d| RawWaker::new(d, &VT1),
+    |d| log(Ev::Wake(((d as usize as u32) << 1) | 1)),
+    |d| log(Ev::Wake(((d as usize as u32) << 1) | 1)),
     |_| {},
 );
 fn waker(id: u32) -> Waker {
-    unsafe { Waker::from_raw(RawWaker::new(id as usize as *const (), &VT)) }
+    let vt = if id & 1 == 0 { &VT0 } else { &VT1 };
+    unsafe { Waker::from_raw(RawWaker::new((id >> 1) as usize as *const (), vt)) }
 }
 
 // ---- handles --------------------------------------------------------------
